@@ -185,6 +185,8 @@ fn walk(nodes: &[Node], scopes: &mut Vec<Scope>, m: &mut Model, r: &mut Renderer
             Node::Func { param, body } => {
                 r.func_counter += 1;
                 let fname = format!("fn{}", r.func_counter);
+                // two scopes: the parameter list (a barrier for the locals outside), and inside it the body block, whose
+                // locals and items are inner declarations that shadow a parameter of the same name
                 scopes.push(Scope { consts: BTreeMap::new(), locals: BTreeMap::new(), barrier: true });
                 let ptext = match param {
                     Some(p) => {
@@ -192,14 +194,14 @@ fn walk(nodes: &[Node], scopes: &mut Vec<Scope>, m: &mut Model, r: &mut Renderer
                         let t = r.ident(*p, occ);
                         m.occ.push((*p, true, Binding::Decl(occ)));
                         scopes.last_mut().unwrap().locals.insert(*p, (occ, DeclKind::Param));
-                        // a body-level local with the parameter's name: unspecified by the statement
-                        if body.iter().any(|n| matches!(n, Node::Local { name, .. } | Node::Const { name, .. } if name == p)) { m.unspecified = true; }
                         format!("int {t}")
                     },
                     None => String::new(),
                 };
                 r.out.push_str(&format!("void {fname}({ptext}) {{ "));
+                scopes.push(Scope { consts: BTreeMap::new(), locals: BTreeMap::new(), barrier: false });
                 walk(body, scopes, m, r);
+                scopes.pop();
                 scopes.pop();
                 r.out.push_str("} ");
             },
@@ -521,7 +523,7 @@ pub fn run(tier: &str) -> Report {
     rep.exhaustive = true;
     rep.bound_completed = format!("(c) file-level names: sprites / scripts / consts (ANM th12), subs (ECL th06, th07), MSG scripts x 12 spellings (register alias, instruction alias, enum const, builtin consts, generated names) x 1-5 use sites, each against its fresh renaming; (b) aliases per language: full product of {n_lang} cases (3 games x per-spelling definition sets {{none, ECL, timeline, both}}^2 x mapfile section order x spelling used in sub x spelling used in timeline x register alias site); (a) deviations<={bound}, <= {budget} nodes, nesting<={depth}; node kinds: use, local (with/without initialiser naming any pool name), const (literal or naming any pool name), block, if, loop, function (with/without parameter); name pool {:?} ('A' is also a register alias)", NAMES);
     rep.rule = "E-DFS over scope trees; distinct = distinct rendered text; non-trivial = some declaration shadows an outer declaration or the register alias".into();
-    rep.assumptions = vec!["M5 scope model (harness), written from the documented scoping rules and resolve/tests.rs expectations".into(), "same-block local/const name clashes, parameters redeclared in the function's top block, circular consts and consts naming a register are generated but only required not to crash".into()];
+    rep.assumptions = vec!["M5 scope model (harness), written from the documented scoping rules and resolve/tests.rs expectations".into(), "same-block local/const name clashes, circular consts and consts naming a register are generated but only required not to crash".into()];
     rep.explanation = "Ok/Err of resolve_names vs M5; for accepted programs the def-equivalence classes of all identifier occurrences (via passes::debug::make_idents_unique) vs M5's bindings; for function-free resolvable programs, compiled instructions of P and of the injectively renamed program must be identical".into();
     rep
 }
